@@ -32,6 +32,18 @@ func zzState(shape int, sa, sb int64) (*GenginePool, map[string]zzSpec) {
 	case 4:
 		zzMust(gp.UpdatePooledRules(zzRule("a", 1, vnd.SalText(sa))), "full update")
 		delete(spec, "b")
+	case 5:
+		// a rule moved by an incremental update with a changed (symbolic) salience
+		sm := vnd.Int64("sm")
+		zzMust(gp.UpdatePooledRulesIncremental(zzRule("a", 1, vnd.SalText(sm))), "incremental update moving a")
+		spec["a"] = zzSpec{1, sm, "da"}
+	case 6:
+		// three rules, the middle name moved
+		sm := vnd.Int64("sm")
+		zzMust(gp.UpdatePooledRulesIncremental(zzRule("c", 1, "4")), "incremental update")
+		zzMust(gp.UpdatePooledRulesIncremental(zzRule("b", 1, vnd.SalText(sm))), "incremental update moving b")
+		spec["c"] = zzSpec{1, 4, "dc"}
+		spec["b"] = zzSpec{1, sm, "db"}
 	}
 	return gp, spec
 }
@@ -106,29 +118,30 @@ func zzCheckPool(gp *GenginePool, spec map[string]zzSpec, model int) {
 func genC16(tier string, seed int64) (*Family, error) {
 	fam := &Family{
 		Prop: "C16", Files: map[string]string{},
-		Bounds: map[string]interface{}{"pool": "min 1, max 2 (one initial and one additional instance)", "installed_rules_before_the_step": "0..3", "pre_state_shapes": "fresh, after removal, cleared, after incremental update, after full update", "operations": "full update, incremental update (new / existing / both), removal (existing, absent, all), clear, model change (symbolic model)"},
+		Bounds: map[string]interface{}{"pool": "min 1, max 2 (one initial and one additional instance)", "installed_rules_before_the_step": "0..3", "pre_state_shapes": "fresh, after removal, cleared, after incremental update, after full update, after an incremental update that moved a rule (two and three rules)", "operations": "full update, incremental update (new / existing / both), removal (existing, absent, all), clear, model change (symbolic model)"},
 		Cfg:    interp.Config{MaxSteps: 8_000_000},
 		Functions: []string{"engine.GenginePool).UpdatePooledRules", "engine.GenginePool).UpdatePooledRulesIncremental", "engine.GenginePool).RemoveRules", "engine.GenginePool).ClearPoolRules",
 			"engine.GenginePool).SetExecModel", "engine.GenginePool).IsExist", "engine.GenginePool).GetRulesNumber", "engine.GenginePool).GetRuleSalience", "engine.GenginePool).GetRuleDesc", "engine.GenginePool).GetExecModel", "engine.GenginePool).Execute"},
 	}
 	fam.Assumptions = []string{
-		"inductive step over pool states: the pre-state is one of the five shapes a history can leave the pool in (instances sharing the master's container, instances with their own containers, cleared, ...) with symbolic saliences; one management operation is applied; queries and an execution forced onto each instance must agree with the denoted set",
+		"inductive step over pool states: the pre-state is one of the seven shapes a history can leave the pool in (instances sharing the master's container, instances with their own containers, cleared, ...) with symbolic saliences; one management operation is applied; queries and an execution forced onto each instance must agree with the denoted set",
 		"an execution is forced onto the additional instance by holding the initial one (harness inside package engine)",
 		"two-step sequences cover clear followed by each update kind",
 	}
 	fam.Outside = []string{"pools with more than 2 instances", "management calls concurrent with executions (C07, C19)"}
 	var b strings.Builder
 	b.WriteString(c16Lib)
-	shapes := []string{"fresh", "removed", "cleared", "incremented", "fullupdated"}
+	shapes := []string{"fresh", "removed", "cleared", "incremented", "fullupdated", "moved", "moved3"}
 	type op struct{ id, code string }
 	ops := []op{
 		{"full", "\tq := vnd.Int64(\"q\")\n\tzzMust(gp.UpdatePooledRules(zzRule(\"b\", 2, vnd.SalText(q))+zzRule(\"x\", 2, \"1\")), \"full update\")\n\tspec = map[string]zzSpec{\"b\": {2, q, \"db\"}, \"x\": {2, 1, \"dx\"}}\n"},
 		{"incr_new", "\tq := vnd.Int64(\"q\")\n\tzzMust(gp.UpdatePooledRulesIncremental(zzRule(\"x\", 2, vnd.SalText(q))), \"incremental update\")\n\tspec[\"x\"] = zzSpec{2, q, \"dx\"}\n"},
 		{"incr_existing", "\tq := vnd.Int64(\"q\")\n\tzzMust(gp.UpdatePooledRulesIncremental(zzRule(\"a\", 2, vnd.SalText(q))), \"incremental update\")\n\tspec[\"a\"] = zzSpec{2, q, \"da\"}\n"},
 		{"incr_both", "\tq := vnd.Int64(\"q\")\n\tzzMust(gp.UpdatePooledRulesIncremental(zzRule(\"a\", 2, vnd.SalText(q))+zzRule(\"x\", 2, \"6\")), \"incremental update\")\n\tspec[\"a\"] = zzSpec{2, q, \"da\"}\n\tspec[\"x\"] = zzSpec{2, 6, \"dx\"}\n"},
+		{"incr_b", "\tq := vnd.Int64(\"q\")\n\tzzMust(gp.UpdatePooledRulesIncremental(zzRule(\"b\", 2, vnd.SalText(q))), \"incremental update\")\n\tspec[\"b\"] = zzSpec{2, q, \"db\"}\n"},
 		{"remove_a", "\terr := gp.RemoveRules([]string{\"a\"})\n\tif len(spec) > 0 {\n\t\tvnd.Assert(err == nil, \"removal succeeds\")\n\t}\n\tdelete(spec, \"a\")\n"},
 		{"remove_absent", "\t_ = gp.RemoveRules([]string{\"zz\"})\n"},
-		{"remove_all", "\t_ = gp.RemoveRules([]string{\"a\", \"b\", \"c\"})\n\tspec = map[string]zzSpec{}\n"},
+		{"remove_all", "\t_ = gp.RemoveRules([]string{\"a\", \"b\", \"c\", \"a\", \"zz\"})\n\tspec = map[string]zzSpec{}\n"},
 		{"clear", "\tgp.ClearPoolRules()\n\tspec = map[string]zzSpec{}\n"},
 		{"setmodel", "\tm := vnd.Int(\"m\")\n\terr := gp.SetExecModel(m)\n\tvnd.Assert(vnd.Iff(err == nil, vnd.And(m >= 1, m <= 4)), \"exactly the four models are accepted\")\n\tif err == nil {\n\t\tmodel = m\n\t}\n"},
 		{"rejected_full", "\terr := gp.UpdatePooledRules(\"rule \\\"x\\\" begin\")\n\tvnd.Assert(err != nil, \"a broken text is rejected\")\n"},
